@@ -72,7 +72,7 @@ def _cfg_text(consts: dict, invariants: list[str]) -> str:
 
 
 def _budget(tier):
-    budget = {"quick": (260, 300), "thorough": (20000, 20000)}[tier]
+    budget = {"quick": (260, 300), "thorough": (15000, 15000)}[tier]
     scale = float(os.environ.get("VERIF_BUDGET_SCALE", "1"))  # < 1 only for fast mutant screening
     return (max(50, int(budget[0] * scale)), max(50, int(budget[1] * scale)))
 
